@@ -19,6 +19,7 @@ import (
 	"testing"
 
 	"github.com/apernet/hysteria/extras/v2/outbounds/acl"
+	"golang.org/x/net/idna"
 )
 
 type c09Case struct {
@@ -29,6 +30,15 @@ type c09Case struct {
 	Hosts []c09Host  `json:"hosts"`
 	Qs    [][3]int   `json:"qs"` // host index, protocol, port
 	Valid bool       `json:"valid"`
+	// eng: the rule file as written by the generator (hex), and the line number of every rule in it
+	Text  string     `json:"text"`
+	Lines []int      `json:"lines"`
+	// file: a rule file (hex) and what an independent reading of the line grammar says ParseTextRules must return:
+	// Want = rules [line, outbound, address, protoPort, hijack] (hex fields) or WantErr = [line] of the first bad line
+	Want    [][5]any `json:"want"`
+	WantErr []int    `json:"wanterr"`
+	// ipstr: addresses (hex, "" = nil)
+	Addrs []string   `json:"addrs"`
 }
 
 func TestVerifC09(t *testing.T) {
@@ -51,6 +61,10 @@ func TestVerifC09(t *testing.T) {
 			c09Acl(c, res)
 		case "eng":
 			c09Eng(c, res)
+		case "file":
+			c09File(c, res)
+		case "ipstr":
+			c09IPStr(c, res)
 		default:
 			t.Fatalf("unknown case kind %q", c.K)
 		}
@@ -99,7 +113,47 @@ func c09CheckStringAssumption(hosts []c09Host) string {
 	return ""
 }
 
+// The model's standing assumption on names (property text: "ASCII host patterns"): rule addresses and queried names
+// are ASCII, no label of a queried name starts with "xn--", and idna.ToUnicode (called by domainMatcher.Match on
+// the lower-cased name) then leaves the name as it is.  Enforced here on every case: a generator that leaves the
+// grammar is reported instead of being silently compared against a model that does not cover it.
+func c09CheckNameAssumption(c c09Case) string {
+	ascii := func(s string) bool {
+		for i := 0; i < len(s); i++ {
+			if s[i] >= 0x80 {
+				return false
+			}
+		}
+		return true
+	}
+	for _, r := range c.Rules {
+		if !ascii(r.Addr) || !ascii(r.Ob) || !ascii(r.PP) || !ascii(r.Hj) {
+			return fmt.Sprintf("generated rule field is not ASCII: %q", r)
+		}
+	}
+	for _, h := range c.Hosts {
+		if !ascii(h.N) {
+			return fmt.Sprintf("generated host name is not ASCII: %q", h.N)
+		}
+		low := strings.TrimRight(strings.ToLower(h.N), ".")
+		for _, lab := range strings.Split(low, ".") {
+			if strings.HasPrefix(lab, "xn--") {
+				return fmt.Sprintf("generated host name has a punycode label: %q", h.N)
+			}
+		}
+		if u, err := idna.ToUnicode(low); err == nil && u != low {
+			return fmt.Sprintf("idna.ToUnicode(%q) = %q: not the identity on a name of the grammar", low, u)
+		}
+	}
+	return ""
+}
+
 func c09Acl(c c09Case, res map[string]any) {
+	if s := c09CheckNameAssumption(c); s != "" {
+		res["ok"] = false
+		res["why"] = "assumption: " + s
+		return
+	}
 	obs := map[string]int{}
 	for i, n := range c.Obs {
 		obs[n] = i + 1
@@ -214,26 +268,41 @@ func c09Eng(c c09Case, res map[string]any) {
 	for i, n := range c.Obs {
 		entries[i] = OutboundEntry{Name: n, Outbound: &c09Ob{i + 1}}
 	}
-	var sb strings.Builder
-	sb.WriteString("# generated\n\n")
-	for _, r := range c.Rules {
-		sb.WriteString("  " + r.Ob + "(" + r.Addr)
-		if r.PP != "" || r.Hj != "" {
-			sb.WriteString(", " + r.PP)
-		}
-		if r.Hj != "" {
-			sb.WriteString(" ," + r.Hj)
-		}
-		sb.WriteString(")  # c\n")
+	if s := c09CheckNameAssumption(c); s != "" {
+		res["ok"] = false
+		res["why"] = "assumption: " + s
+		return
 	}
-	text := sb.String()
-	// the text parser is not modelled: check here that it hands Compile the intended fields
+	var text string
+	if c.Text != "" {
+		// the rule file as the generator wrote it (odd white space, comments, blank lines, CRLF)
+		text = string(vUnhex(c.Text))
+	} else {
+		var sb strings.Builder
+		sb.WriteString("# generated\n\n")
+		for _, r := range c.Rules {
+			sb.WriteString("  " + r.Ob + "(" + r.Addr)
+			if r.PP != "" || r.Hj != "" {
+				sb.WriteString(", " + r.PP)
+			}
+			if r.Hj != "" {
+				sb.WriteString(" ," + r.Hj)
+			}
+			sb.WriteString(")  # c\n")
+		}
+		text = sb.String()
+	}
+	res["text"] = vHex([]byte(text))
+	// the text parser must hand Compile the intended fields, in order, with the line numbers of the file
 	ptrs, perr := acl.ParseTextRules(text)
 	parseOK := perr == nil && len(ptrs) == len(c.Rules)
 	if parseOK {
 		for i, r := range c.Rules {
 			pr := ptrs[i]
 			if pr.Outbound != r.Ob || pr.Address != r.Addr || pr.ProtoPort != r.PP || pr.HijackAddress != r.Hj {
+				parseOK = false
+			}
+			if c.Lines != nil && pr.LineNum != c.Lines[i] {
 				parseOK = false
 			}
 		}
@@ -363,6 +432,116 @@ func c09Eng(c c09Case, res map[string]any) {
 		fail("panic in handle: " + msg)
 	}
 	res["ans"] = ans
+	res["ok"] = ok
+	res["why"] = why
+}
+
+// ---------------------------------------------------------------- rule files (ParseTextRules alone)
+
+func c09File(c c09Case, res map[string]any) {
+	text := string(vUnhex(c.Text))
+	var trs []acl.TextRule
+	var err error
+	p, msg := vCatch(func() { trs, err = acl.ParseTextRules(text) })
+	if p {
+		res["panic"] = true
+		res["ok"] = false
+		res["why"] = "panic in ParseTextRules: " + msg
+		return
+	}
+	ok, why := true, ""
+	fail := func(s string) {
+		if ok {
+			ok, why = false, s
+		}
+	}
+	if err != nil {
+		se, is := err.(*acl.InvalidSyntaxError)
+		if !is {
+			res["ok"] = false
+			res["why"] = "ParseTextRules returned an error that is not an InvalidSyntaxError: " + err.Error()
+			return
+		}
+		res["perr"] = []any{se.LineNum, vHex([]byte(se.Line))}
+		if c.WantErr == nil {
+			fail(fmt.Sprintf("ParseTextRules rejects line %d (%q) of a file every line of which is blank, a comment or in the line grammar", se.LineNum, se.Line))
+		} else if c.WantErr[0] != se.LineNum {
+			fail(fmt.Sprintf("ParseTextRules reports line %d, the first line outside the grammar is line %d", se.LineNum, c.WantErr[0]))
+		}
+	} else {
+		out := make([][5]any, len(trs))
+		for i, r := range trs {
+			out[i] = [5]any{r.LineNum, vHex([]byte(r.Outbound)), vHex([]byte(r.Address)), vHex([]byte(r.ProtoPort)), vHex([]byte(r.HijackAddress))}
+		}
+		res["rules"] = out
+		if c.WantErr != nil {
+			fail(fmt.Sprintf("ParseTextRules accepts a file whose line %d is outside the line grammar", c.WantErr[0]))
+		} else if len(c.Want) != len(trs) {
+			fail(fmt.Sprintf("ParseTextRules returns %d rules, the file has %d rule lines", len(trs), len(c.Want)))
+		} else {
+			for i, w := range c.Want {
+				ln, _ := w[0].(float64)
+				for k := 1; k < 5; k++ {
+					if ws, _ := w[k].(string); ws != out[i][k].(string) {
+						fail(fmt.Sprintf("rule %d (line %d): field %d is %q, the line grammar gives %q", i, int(ln), k, vUnhex(out[i][k].(string)), vUnhex(ws)))
+					}
+				}
+				if int(ln) != trs[i].LineNum {
+					fail(fmt.Sprintf("rule %d: line number %d, expected %d (rules out of file order?)", i, trs[i].LineNum, int(ln)))
+				}
+			}
+		}
+	}
+	res["ok"] = ok
+	res["why"] = why
+}
+
+// ---------------------------------------------------------------- net.IP.String / HostInfo.String
+
+func c09IPStr(c c09Case, res map[string]any) {
+	ok, why := true, ""
+	fail := func(s string) {
+		if ok {
+			ok, why = false, s
+		}
+	}
+	strs := make([]string, len(c.Addrs))
+	seen := map[string]string{}
+	p, msg := vCatch(func() {
+		for i, a := range c.Addrs {
+			ip := c09IP(a)
+			s := ip.String()
+			strs[i] = vHex([]byte(s))
+			// the two facts the cache-key argument rests on, on the implementation alone
+			if strings.Contains(s, "|") {
+				fail("assumption: net.IP.String() contains '|': " + s)
+			}
+			cn := c09Canon(ip)
+			if old, dup := seen[s]; dup && old != cn {
+				fail("assumption: net.IP.String() renders two different addresses as " + s)
+			}
+			seen[s] = cn
+			if f := fmt.Sprintf("%s", ip); f != s {
+				fail(fmt.Sprintf("assumption: fmt %%s of a net.IP prints %q, String() %q", f, s))
+			}
+			if len(ip) == 4 || len(ip) == 16 {
+				// the rendering determines the address: Go's own parser reads it back
+				if back := net.ParseIP(s); back == nil || !back.Equal(ip) {
+					fail(fmt.Sprintf("assumption: net.ParseIP(%q) does not give back %s", s, a))
+				}
+			}
+		}
+	})
+	if p {
+		res["panic"] = true
+		fail("panic in net.IP.String: " + msg)
+	}
+	res["strs"] = strs
+	hs := make([]string, len(c.Hosts))
+	for i, h := range c.Hosts {
+		hs[i] = vHex([]byte(acl.HostInfo{Name: h.N, IPv4: c09IP(h.V4), IPv6: c09IP(h.V6)}.String()))
+	}
+	res["hstrs"] = hs
 	res["ok"] = ok
 	res["why"] = why
 }
